@@ -330,7 +330,7 @@ fn main() {
             };
 
             if !lint.no_output {
-                diags.sort();
+                DiagnosticItem::sort_for_display(&mut diags, &parser.reader);
 
                 // Output as JSON
                 if lint.json {
